@@ -5,7 +5,7 @@ from engine.crosshair_runner import run_ch, replay, spec  # noqa
 
 MOD = 'props.C15_pool'
 CH = 'props/ch/c15_pool.py'
-FUNCS = ['ThreadPool.map_each', 'ThreadPool._get_results', 'ThreadPool._fetch_results', 'ThreadPool.imap',
+FUNCS = ['ThreadWorker.run', 'ThreadPool.map_each', 'ThreadPool._get_results', 'ThreadPool._fetch_results', 'ThreadPool.imap',
          'ThreadPool._single_call', '_result_iter', 'ThreadPool.shutdown']
 
 CANARIES = [
@@ -18,6 +18,9 @@ CANARIES = [
     ('exception of a failing item swallowed in raising mode', 'raising_n3', {'mapproxy.util.async_': [[
         "                self.shutdown(force=True)\n                exc_class, exc, tb = task_result[1]\n                raise exc.with_traceback(tb)",
         "                self.shutdown(force=True)\n                continue"]]}),
+    ('worker marks the task done before it queues the result', 'worker_contract', {'mapproxy.util.async_': [[
+        "                self.result_queue.put((exec_id, result))\n                self.task_queue.task_done()",
+        "                self.task_queue.task_done()\n                self.result_queue.put((exec_id, result))"]]}),
     ('sequential branch attributes exception to nobody', 'sequential_branch', {'mapproxy.util.async_': [[
         "                except Exception:\n                    yield sys.exc_info()\n            return",
         "                except Exception:\n                    pass\n            return"]]}),
@@ -27,12 +30,12 @@ CANARIES = [
 def obligations(tier, seed):
     specs = []
     quick = [('order_n2', 60), ('order_n3', 120), ('order_n4_nofail', 120), ('raising_n2', 60), ('raising_n3', 120),
-             ('order_result_objects_imap', 150), ('sequential_branch', 60), ('single_call', 60)]
+             ('order_result_objects_imap', 150), ('sequential_branch', 60), ('single_call', 60), ('worker_contract', 90)]
     thorough = [('order_n4', 1200), ('raising_n4', 1200), ('order_n5_nofail', 900), ('order_n6_nofail', 1500)]
     for f, to in quick + (thorough if tier == 'thorough' else []):
         specs.append(crosshair_runner.spec(MOD, CH, f, 'pool/' + f, timeout=to, cost=to, functions=FUNCS))
     specs.append(crosshair_runner.spec(MOD, CH, 'twin_order', 'twin/pool-order', kind='witness', timeout=60))
-    for label, f, patches in (CANARIES if tier == 'thorough' else CANARIES[:3]):
+    for label, f, patches in (CANARIES if tier == 'thorough' else CANARIES[:4]):
         specs.append(crosshair_runner.spec(MOD, CH, f, 'canary/%s' % label, kind='canary', timeout=120, patches=patches, cost=30))
     return specs
 
@@ -47,11 +50,13 @@ META = dict(
                 'in result-object mode every item carries exactly its own exception; in raising mode the first arriving '
                 'failure is re-raised after a correct prefix and the pool is shut down with force; the consumer '
                 'terminates (bounded queue operations, never blocks on an empty queue); the sequential branch '
-                '(pool size 1) and the single-call shortcut agree.',
+                '(pool size 1) and the single-call shortcut agree. The assumption the queue model makes about the worker side -- a result '
+                'is queued before its task is marked done, for failing and succeeding tasks alike, and the sentinel is answered by one '
+                'task_done -- is confirmed on the real ThreadWorker.run with recording queues.',
     functions=FUNCS,
     bounds='n <= 3 items with failures and n = 4 without (quick); n = 4 with failures, n <= 6 without (thorough); every '
            'permutation, every phase switch point k in 0..n, every failing subset',
-    outside='real thread timing, ThreadWorker.run (10 lines of queue plumbing), daemon-thread shutdown at interpreter exit',
+    outside='real thread timing (the interleaving argument is: join() returns only after every task_done, and the worker queues a result before its task_done -- the second half is the worker_contract obligation), daemon-thread shutdown at interpreter exit',
     assumptions=['queue model: result queue delivers in arrival order; task_queue.empty() becomes true after k arrivals; '
                  'join() returns when all results have been queued'],
     trusted_base=['CrossHair 0.0.110', 'z3'],
